@@ -176,7 +176,7 @@ _RE_COV = re.compile(r'^<(\w+) line (\d+), col \d+ to line \d+, col \d+ of modul
 
 
 def run_tlc(ctx, module, cfg, workers=None, timeout=900, env=None, simulate=None,
-            extra=(), coverage=True, want_emitted=True, label=None):
+            extra=(), coverage=True, want_emitted=True, label=None, cwd=None):
     """Run TLC on spec/<module>.tla with spec/<cfg>.  Returns dict with states,
     distinct, emitted (list of decoded JSON values printed by PrintT(ToJson(..))),
     prints (other PrintT values as raw strings), ok, out."""
@@ -194,7 +194,7 @@ def run_tlc(ctx, module, cfg, workers=None, timeout=900, env=None, simulate=None
         e.update(env)
     t0 = time.time()
     try:
-        p = subprocess.run(cmd, cwd=SPEC, env=e, stdout=subprocess.PIPE, stderr=subprocess.STDOUT,
+        p = subprocess.run(cmd, cwd=cwd or SPEC, env=e, stdout=subprocess.PIPE, stderr=subprocess.STDOUT,
                            timeout=timeout, text=True)
         out = p.stdout
         rc = p.returncode
@@ -277,7 +277,7 @@ def model_check(ctx, module, cfg, **kw):
     return res
 
 
-def validate_traces(ctx, module, cfg, traces, timeout=900, chunk=2000, extra_env=None):
+def validate_traces(ctx, module, cfg, traces, timeout=900, chunk=2000, extra_env=None, extra_files=None):
     """Batched trace validation.  `traces` is a list of traces; each trace is a JSON value
     (normally a list of event records).  The Trace spec must
       * read them with JsonDeserialize(IOEnv.TRACE_FILE),
@@ -285,15 +285,25 @@ def validate_traces(ctx, module, cfg, traces, timeout=900, chunk=2000, extra_env
     Returns list of (index, viol) for rejected traces.  A trace with no verdict line is
     a machinery failure."""
     rejected = []
+    cwd = None
+    if extra_files:
+        cwd = ctx.mkdtemp('spec')
+        for fn in os.listdir(SPEC):
+            if fn.endswith('.tla') or fn.endswith('.cfg'):
+                shutil.copy(os.path.join(SPEC, fn), cwd)
+        for fn, content in extra_files.items():
+            with open(os.path.join(cwd, fn), 'w') as f:
+                f.write(content)
     for base in range(0, len(traces), chunk):
         part = traces[base:base + chunk]
-        path = os.path.join(ctx.scratch, 'traces_%s_%d.json' % (module, base))
+        fd, path = tempfile.mkstemp(prefix='traces_%s_%d_' % (module, base), suffix='.json', dir=ctx.scratch)
+        os.close(fd)
         with open(path, 'w') as f:
             json.dump(part, f)
         env = {'TRACE_FILE': path}
         if extra_env:
             env.update(extra_env)
-        res = run_tlc(ctx, module, cfg, workers=1, timeout=timeout, env=env, coverage=False,
+        res = run_tlc(ctx, module, cfg, workers=1, timeout=timeout, env=env, coverage=False, cwd=cwd,
                       label='%s/%s[%d..%d]' % (module, cfg, base, base + len(part)))
         if res['invariant_violated']:
             raise MachineryError('trace spec invariant violated:\n' + tlc_violation_excerpt(res['out']))
@@ -301,8 +311,9 @@ def validate_traces(ctx, module, cfg, traces, timeout=900, chunk=2000, extra_env
         for v in res['emitted']:
             if isinstance(v, dict) and 'tid' in v:
                 t = int(v['tid'])
-                # a trace may print several verdict lines if the spec branches; reject wins
-                if t in seen and not seen[t]['ok']:
+                # a trace may print several verdict lines if the spec branches (admitted
+                # nondeterminism): it is accepted iff SOME branch explains it
+                if t in seen and seen[t]['ok']:
                     continue
                 seen[t] = v
         for i in range(len(part)):
